@@ -22,20 +22,22 @@ import (
 // domain is left.
 
 type cliCase struct {
-	Cmd      string   `json:"cmd"`
-	Ali      gen.Ali  `json:"ali"`
-	Alphabet string   `json:"alphabet_flag"` // "", "nt", "aa"
-	Seed     int64    `json:"seed"`
-	A        float64  `json:"a"`
-	B        float64  `json:"b"`
-	N        int      `json:"n"`
-	K        int      `json:"k"` // number of samples / replicates
-	Flag     bool     `json:"flag"`
-	Counts   []cnt    `json:"counts,omitempty"`
-	Part     int      `json:"partition"`     // build seqboot: 0 = no partition file, else partitionOf(PartMod, Part-1, L)
-	PartMod  bool     `json:"partition_mod"` // partitions by column index modulo k instead of two ranges
-	T        int      `json:"threads"`       // 0: -t is not given; otherwise two more runs with -t T
-	Big      *bigSpec `json:"big,omitempty"`
+	Cmd      string     `json:"cmd"`
+	Ali      gen.Ali    `json:"ali"`
+	Alphabet string     `json:"alphabet_flag"` // "", "nt", "aa"
+	Seed     int64      `json:"seed"`
+	A        float64    `json:"a"`
+	B        float64    `json:"b"`
+	N        int        `json:"n"`
+	K        int        `json:"k"` // number of samples / replicates
+	Flag     bool       `json:"flag"`
+	Counts   []cnt      `json:"counts,omitempty"`
+	Ranges   []prange   `json:"ranges,omitempty"` // build seqboot --partition: the partition set (several ranges and strides per partition)
+	Layout   cli.Layout `json:"layout"`           // presentation of the input FASTA file
+	OutFile  bool       `json:"outfile"`          // the main output goes to a file (-o) instead of the standard output
+	Stale    bool       `json:"stale"`            // first run: every output file exists already, with a longer stale content
+	T        int        `json:"threads"`          // 0: -t is not given; otherwise two more runs with -t T
+	Big      *bigSpec   `json:"big,omitempty"`
 }
 
 func (c cliCase) expand() cliCase {
@@ -175,8 +177,7 @@ func genCLI(t *rapid.T) cliCase {
 	case "build seqboot":
 		c.A = genRate(t, "frac", 1, l, false)
 		if l >= 2 && rapid.Bool().Draw(t, "partitioned") {
-			c.Part = 1 + rapid.IntRange(0, 40).Draw(t, "partition")
-			c.PartMod = rapid.Bool().Draw(t, "partition_mod")
+			c.Ranges = genRanges(t, l)
 			if c.A <= 0 {
 				c.A = 1
 			}
@@ -187,6 +188,12 @@ func genCLI(t *rapid.T) cliCase {
 		}
 		c.Flag = rapid.Bool().Draw(t, "shuforder")
 	}
+	// presentation of the input file, destination of the main output, stale output files
+	c.Layout = cli.DrawLayout(t)
+	c.Stale = rapid.IntRange(0, 2).Draw(t, "stale") == 0
+	if c.Cmd != "build seqboot" && !(c.Cmd == "sample sites" && c.K > 1) {
+		c.OutFile = rapid.IntRange(0, 2).Draw(t, "outfile") == 0
+	}
 	return c
 }
 
@@ -195,13 +202,18 @@ type cliRun struct {
 	files map[string]string // output files (base name -> content)
 }
 
-func runCLI(dir string, c cliCase, threads int) (cliRun, []string) {
+func runCLI(dir string, c cliCase, threads int, stale bool) (cliRun, []string) {
 	work, err := os.MkdirTemp(dir, "run")
 	if err != nil {
 		panic(err)
 	}
 	in := filepath.Join(work, "in.fa")
-	os.WriteFile(in, []byte(cli.Fasta(c.Ali.Rows)), 0o644)
+	os.WriteFile(in, []byte(cli.FastaLayout(c.Ali.Rows, c.Layout)), 0o644)
+	// the files the command is asked to write (pre-created with stale content in a stale run)
+	var outputs []string
+	if c.OutFile {
+		outputs = append(outputs, "out.main")
+	}
 	words := strings.Fields(c.Cmd)
 	args := append(words, "-i", in, "--seed="+strconv.FormatInt(c.Seed, 10))
 	if c.Alphabet != "" {
@@ -209,6 +221,9 @@ func runCLI(dir string, c cliCase, threads int) (cliRun, []string) {
 	}
 	if threads > 0 {
 		args = append(args, "-t", strconv.Itoa(threads))
+	}
+	if c.OutFile {
+		args = append(args, "-o", filepath.Join(work, "out.main"))
 	}
 	switch c.Cmd {
 	case "shuffle seqs":
@@ -265,25 +280,26 @@ func runCLI(dir string, c cliCase, threads int) (cliRun, []string) {
 		args = append(args, "-r", ff(c.A), "-n", ff(c.B))
 	case "build seqboot":
 		args = append(args, "-f", ff(c.A), "-n", strconv.Itoa(c.K), "-o", filepath.Join(work, "out.boot"))
-		if c.Part > 0 {
+		if len(c.Ranges) > 0 {
 			// the partition file in the RAxML-like syntax of the documentation (1-based, start-end/modulo)
-			l := c.Ali.Length()
-			var sb strings.Builder
-			if c.PartMod {
-				_, k := partitionOf(true, c.Part-1, l)
-				for i := 0; i < k; i++ {
-					fmt.Fprintf(&sb, "M, p%d = %d-%d/%d\n", i, i+1, l, k)
-				}
-			} else {
-				cut := 1 + mod(c.Part-1, l-1)
-				fmt.Fprintf(&sb, "M, p0 = 1-%d\nM, p1 = %d-%d\n", cut, cut+1, l)
-			}
 			pf := filepath.Join(work, "partition.txt")
-			os.WriteFile(pf, []byte(sb.String()), 0o644)
+			os.WriteFile(pf, []byte(partitionFile(c.Ranges)), 0o644)
 			args = append(args, "--partition", pf, "--out-partition", filepath.Join(work, "out.partition"))
+			outputs = append(outputs, "out.partition")
+		}
+		for k := 0; k < c.K; k++ {
+			outputs = append(outputs, fmt.Sprintf("out.boot%d.fa", k))
 		}
 		if c.Flag {
 			args = append(args, "-S")
+		}
+	}
+	if strings.Contains(strings.Join(args, " "), "out.rogues") {
+		outputs = append(outputs, "out.rogues")
+	}
+	if stale {
+		for i, f := range outputs {
+			cli.StaleFile(filepath.Join(work, f), 40+7*i)
 		}
 	}
 	r := cliRun{res: cli.Run("", args...), files: map[string]string{}}
@@ -336,8 +352,17 @@ func checkCLI(dir string) func(c cliCase) (pbt.Outcome, error) {
 		c = c.expand()
 		orig := c.Ali.Rows
 		n, l := len(orig), c.Ali.Length()
-		r1, args := runCLI(dir, c, 0)
-		r2, _ := runCLI(dir, c, 0)
+		r1, args := runCLI(dir, c, 0, c.Stale)
+		r2, _ := runCLI(dir, c, 0, false)
+		if !c.Layout.Plain() {
+			o.Class("input layout not plain")
+		}
+		if c.Stale {
+			o.Class("stale output files")
+		}
+		if c.OutFile {
+			o.Class("main output to a file")
+		}
 		o.Class("cmd=%s", c.Cmd)
 		if c.Big != nil {
 			o.Class("seqboot: long alignment, many replicates, threads")
@@ -361,8 +386,8 @@ func checkCLI(dir string) func(c cliCase) (pbt.Outcome, error) {
 		// several threads: the same bytes again, and the same as with one thread
 		if c.T > 0 {
 			o.Class("threads=%d", c.T)
-			t1, targs := runCLI(dir, c, c.T)
-			t2, _ := runCLI(dir, c, c.T)
+			t1, targs := runCLI(dir, c, c.T, false)
+			t2, _ := runCLI(dir, c, c.T, c.Stale)
 			if d := sameRun(t1, t2); d != "" {
 				return o, fmt.Errorf("goalign %v run twice with the same seed and -t %d: %s", targs, c.T, d)
 			}
@@ -410,12 +435,19 @@ func checkCLI(dir string) func(c cliCase) (pbt.Outcome, error) {
 		var replicates [][]gen.Row
 		var got []gen.Row
 		var perr error
+		main := r1.res.Stdout
+		if c.OutFile {
+			// the main output was sent to a file: it is read there (nothing but it may be in the file)
+			main = r1.files["out.main"]
+			delete(r1.files, "out.main")
+			delete(r2.files, "out.main")
+		}
 		if c.Cmd == "sample rarefy" && c.K > 1 {
-			if replicates, perr = parsePhylips(r1.res.Stdout); perr == nil && len(replicates) > 0 {
+			if replicates, perr = parsePhylips(main); perr == nil && len(replicates) > 0 {
 				got = replicates[0]
 			}
 		} else {
-			got, perr = cli.ParseFasta(r1.res.Stdout)
+			got, perr = cli.ParseFasta(main)
 		}
 		if perr != nil {
 			return o, fmt.Errorf("goalign %v: unreadable output: %v", args, perr)
@@ -501,7 +533,7 @@ func checkCLI(dir string) func(c cliCase) (pbt.Outcome, error) {
 			drew = true
 		case "build seqboot":
 			nfiles := c.K
-			if c.Part > 0 {
+			if len(c.Ranges) > 0 {
 				nfiles++ // the partition file of the replicates
 				o.Class("seqboot --partition")
 			}
@@ -526,8 +558,8 @@ func checkCLI(dir string) func(c cliCase) (pbt.Outcome, error) {
 					}
 				}
 				var a int
-				if c.Part > 0 {
-					part, k := partitionOf(c.PartMod, c.Part-1, l)
+				if len(c.Ranges) > 0 {
+					part, k := partitionOf(c.Ranges, l)
 					a, err = invPartBoot(orig, rows, c.A, part, k)
 				} else {
 					a, err = invBootstrap(orig, rows, c.A)
@@ -544,7 +576,7 @@ func checkCLI(dir string) func(c cliCase) (pbt.Outcome, error) {
 		}
 		o.Ambiguous += amb
 		if err != nil {
-			return o, fmt.Errorf("goalign %v\n input : %s\n output: %s\n%v", args, show(orig), trunc(r1.res.Stdout, 600), err)
+			return o, fmt.Errorf("goalign %v\n input : %s\n output: %s\n%v", args, show(orig), trunc(main, 600), err)
 		}
 		changed = !gen.SameRows(orig, got)
 		if changed {
